@@ -149,6 +149,7 @@ pub fn run(ctx: &Ctx) -> (Spec, Report) {
                 prog.items.push(Item::new("QemptyEnumz", Kind::Enum { variants: vec![], tag: None, content: None }));
             }
             let src = prog.render(rng, &RenderOpts { vary: true, prelude: false, strip_typeshare: false });
+            let src = if rng.chance(1, 4) { crate::model::relayout(&src, rng.range(1, 4)) } else { src };
             let has_const = prog.items.iter().any(|i| matches!(i.kind, Kind::Const { .. }));
             let generic_enum = prog.items.iter().any(|i| matches!(i.kind, Kind::Enum { .. }) && !i.generics.is_empty());
             let generic_alias = prog.items.iter().any(|i| matches!(i.kind, Kind::Alias(_) | Kind::Newtype(_)) && !i.generics.is_empty());
